@@ -46,6 +46,13 @@ for name in sorted(os.listdir(root)) if os.path.isdir(root) else []:
     try:
         meta = json.load(open(d + "/meta.json"))
         meta["regress"] = {"repo_head": head, "lines": lines, "ok": bool(good)}
+        if not harmless and good and not meta.get("detected_by"):
+            meta["detected_by"] = [pid]
+            meta.setdefault("note", "first missed by the check as it was when the change was produced; detected after the check was strengthened (DESIGN.md 10.4)")
+        if harmless and good and (meta.get("verdict") or {}).get("false_alarm_in"):
+            meta.setdefault("note", "first a false alarm; the weakness of the machinery it showed was removed (DESIGN.md 10.8)")
+            meta["verdict"]["false_alarm_in_first_run"] = meta["verdict"].pop("false_alarm_in")
+            meta["verdict"]["false_alarm_in"] = []
         json.dump(meta, open(d + "/meta.json", "w"), indent=1)
     except (OSError, ValueError):
         pass
